@@ -49,6 +49,7 @@ structure Case where
   cord : List Nat
   res : List (Res Key Key F64.Bits)
   um : List UnitMeta
+  umall : List UnitMeta
   tidy : List (Bytes × Bytes)
   xs : List (List F64.Bits)
   sums : List (String × SummaryAns)
@@ -79,6 +80,9 @@ def parseCase (l : Line) : Case :=
     tord := parseNats (l.getD "Tord" "-"), rord := parseNats (l.getD "Rord" "-"), cord := parseNats (l.getD "Cord" "-"),
     res := (splitNE (l.getD "res" "-") ",").map (parseRes T R C Z),
     um := (splitNE (l.getD "um" "-") ",").filterMap fun e => match e.splitOn ":" with
+      | [u, k, v] => some { unit := hexOr u, key := hexOr k, value := hexOr v }
+      | _ => none,
+    umall := (splitNE (l.getD "umall" "-") ",").filterMap fun e => match e.splitOn ":" with
       | [u, k, v] => some { unit := hexOr u, key := hexOr k, value := hexOr v }
       | _ => none,
     tidy := (splitNE (l.getD "tidy" "-") ",").filterMap fun e => match e.splitOn ":" with
@@ -197,9 +201,11 @@ def specLine (id : String) (c : Case) (bin : String) : String :=
     let fs := Spec.Cells.residueFields c.zf (g.map (·.residue))
     if fs.isEmpty then none else some (ident k, s!"{name k}={"+".intercalate (fs.map Bytes.toHex)}")
   let cfg := c.cfg
+  let tidyF := fun u => ((c.tidy.find? (·.1 == u)).map (·.2)).getD u
+  let specAssume : Bytes → Assump := getAssumption tidyF c.umall
   let centre : Key → Key → Key → F64.Bits := fun t r cc =>
     let g := Spec.Cells.group ms t r cc
-    (cfg.orc.summary (cfg.assume (cfg.unitOf t)) (g.map (·.value))).center
+    (cfg.orc.summary (specAssume (cfg.unitOf t)) (g.map (·.value))).center
   let tabs := (ms.map (·.table)).eraseDups
   let gm := tabs.flatMap fun t =>
     (Spec.Cells.colsOf ms t).map fun cc =>
@@ -208,7 +214,10 @@ def specLine (id : String) (c : Case) (bin : String) : String :=
       (((idxOf c.T t, idxOf c.C cc, 0) : Nat × Nat × Nat), s, f.superset)
   let gmParts := (gm.filter fun x => x.2.1 != "").map fun x => (x.1, s!"{x.1.1}.{x.1.2.1}={x.2.1}")
   let sorted (l : List ((Nat × Nat × Nat) × String)) : List String := (l.foldr insTriple []).map (·.2)
-  s!"spec {id} cells={joinOr (sorted cells)} resw={joinOr (sorted resw)} gmw={joinOr (sorted gmParts)} stats=ok bin={bin}"
+  -- "the unit's statistical assumption": from the unit metadata of ALL input files
+  let asParts := tabs.map fun t =>
+    (((idxOf c.T t, 0, 0) : Nat × Nat × Nat), s!"{idxOf c.T t}={aName (specAssume (cfg.unitOf t))}")
+  s!"spec {id} cells={joinOr (sorted cells)} resw={joinOr (sorted resw)} gmw={joinOr (sorted gmParts)} assume={joinOr (sorted asParts)} stats=ok bin={bin}"
 
 
 def hexStr (s : String) : String := (Bytes.ofString s).toHex
